@@ -67,7 +67,7 @@ class C01(Profile):
             rng, engines=["it", "it2"] if rng.random() < 0.5 else ["it"],
             weights={**UNARY_W, "chain": 2, "mat": 1, "xfer": 1, "leaf": 1, "run": 2,
                      "cursor_open": 1.5, "pull": 3, "abandon": 0.4},
-            max_ops=16 if big else 10, udf_p=0.08, special_leaf_p=0.06,
+            max_ops=16 if big else 10, udf_p=0.08, special_leaf_p=0.06, pipeline_p=0.3,
             bounds=("exact", "exact", "loose", "zeromin", "unbounded"),
         )
         ops = g.build()
@@ -303,7 +303,8 @@ class C06(Profile):
         if mode == "multi":
             w["xfer"] = 2
         g = Gen(rng, engines=engines, weights=w, max_ops=13 if big else 9, nleaves=(2, 3),
-                bounds=("exact", "loose", "zeromin", "unbounded", "minonly"), special_leaf_p=0.25, zero_col_p=0.15)
+                bounds=("exact", "loose", "zeromin", "unbounded", "minonly"), special_leaf_p=0.25, zero_col_p=0.15,
+                redeclare_p=0.25)
         return {"config": swarm_config(rng), "ops": g.build()}
 
     def dn_keys(self, run):
@@ -336,8 +337,9 @@ class C07(Profile):
                "site, crossing number) - fault-free runs count with site 'none'")
 
     def claim(self, kind, entry, run, v):
-        if kind == "exec_exception" and v["detail"].get("phase") != "process":
-            return None
+        if kind == "exec_exception" and v["detail"].get("phase") != "process" and \
+                not (entry is not None and entry.op["k"] == "process"):
+            return None      # (an exception while executing the tree process() returned is a C07 matter too)
         if kind == "rows_mismatch" and (entry is None or entry.op["k"] != "process"):
             return None
         return self.claims.get(kind)
@@ -403,7 +405,8 @@ class C09(Profile):
         w = {**UNARY_W, "xfer": 2, "mat": 1.5, "chain": 1.5, "join": 1, "leaf": 1, "process": 2, "run": 3, "rebuild": 3,
              "twice": 2, "ill": 2, "diag": 1, "cursor_open": 0.7, "pull": 1.5, "abandon": 0.3, "attach": 0.5}
         return multi_gen(rng, tier, weights=w, flags_p=0.3, max_ops=30 if big else 14,
-                         engines=rng.choice([["sql"], ["it"], ["sql", "it"], ["sql", "it", "it2"]]), named_mat=True)
+                         engines=rng.choice([["sql"], ["it"], ["sql", "it"], ["sql", "it", "it2"]]), named_mat=True,
+                         redeclare_p=0.15)
 
     def dn_keys(self, run):
         kinds = [o["k"] for o in run.sc["ops"]]
@@ -569,7 +572,7 @@ class C16(Profile):
             w["xfer"] = 2
             w["mat"] = 0.7
         g = Gen(rng, engines=engines, weights=w, max_ops=14 if big else 10, nleaves=(2, 3), special_leaf_p=0.3,
-                bounds=("exact", "loose", "zeromin", "unbounded"))
+                bounds=("exact", "loose", "zeromin", "unbounded"), redeclare_p=0.25)
         return {"config": swarm_config(rng), "ops": g.build()}
 
     def dn_keys(self, run):
@@ -624,7 +627,8 @@ class C18(Profile):
     eval_stats = ('iterate_ops', 'full_iterations')
     level = "fault_enumeration"
     claims = {k: "C18" for k in ("eager_leaf_iteration", "multiple_starts", "iteration_not_repeatable", "rows_mismatch",
-                                 "no_recovery", "payload_not_cached")}
+                                 "no_recovery", "payload_not_cached", "mutated")}
+    track_payloads = True
     fault_sites = ("leaf_iter", "udf", "udf_stop")
     enumerate_faults = True
     recover_kinds = ("iterate",)
